@@ -50,6 +50,11 @@ def run(chk, replay=None):
                                                   "shard": sh, "shards": shards}, "sched_%s_%d" % (srv, sh), False))
             jobs.append(("c18.sched", opedges, {"server": srv, "max": 1, "seed": chk.seed, "clients": CL16, "ops": OPS16}, "opcodes_" + srv, False))
         jobs.append(("c18.tcpops", opedges, {"ops": OPS16}, "opcodes_TCPServer", False))
+        # ---- NameChallenger (client side of NBNS): every reply script of up to 3 attempts
+        chedges = os.path.join(d, "challenge.ndjson")
+        r = vlib.run_tlc("NameChallenge", vlib.cfg("C18_challenge.cfg", MAXT=0 if tier == "quick" else 1), emit_to=chedges, timeout=300)
+        chk.add_tlc("name_challenge_scripts", r)
+        jobs.append(("c18.challenge", chedges, {}, "name_challenge", False))
         # ---- LLMNR server: handlers as gates, Close (from outside or from a handler) at every point
         lledges = os.path.join(d, "llmnr.ndjson")
         r = vlib.run_tlc("LLMNRServer", vlib.cfg("C18_llmnr.cfg", NREQ=2 if tier == "quick" else 3), emit_to=lledges, timeout=600)
